@@ -36,6 +36,10 @@ def TPost (b i : Nat) (p : Dec × Res) : Prop :=
 theorem tinv_fresh (cap : Option Nat) : TInv 0 0 (fresh cap) := by
   simp [TInv, TI, fresh]
 
+/-- a decoder constructed at position `i` (`Decoder::new()` / `from_buf` in mid-stream) -/
+theorem tinv_fresh_at (i : Nat) (cap : Option Nat) : TInv i i (fresh cap) := by
+  simp [TInv, TI, fresh]
+
 theorem tinv_reset (i : Nat) (d : Dec) : TInv i i (d.reset).1 := by
   simp [TInv, TI, reset]
 
@@ -273,6 +277,12 @@ theorem tinv_step {b i : Nat} {d : Dec} (h : TInv b i d) (op : Op) :
   | reset =>
     obtain ⟨e1, h1⟩ := tinv_reset_count h
     exact ⟨i, by simp only [step, tileOpStep, e1, if_true, Spec.pushCount, Nat.add_zero], h1⟩
+  | new =>
+    exact ⟨i, by simp only [step, tileOpStep, Spec.pushCount, Nat.add_zero],
+      tinv_fresh_at i d.buf.cap⟩
+  | fromBuf stale =>
+    exact ⟨i, by simp only [step, tileOpStep, Spec.pushCount, Nat.add_zero],
+      tinv_fresh_at i d.buf.cap⟩
 
 theorem pushCount_cons (op : Op) (ops : List Op) :
     Spec.pushCount (op :: ops) = Spec.pushCount [op] + Spec.pushCount ops := by
